@@ -152,11 +152,17 @@ def _schemas():
     if "schemas" not in _CACHE:
         from utype import Schema
 
+        from utype.utils.compat import Literal
+
         class Pt(Schema):
             x: int
             y: int = 0
 
-        _CACHE["schemas"] = {"Pt": Pt}
+        # (this module uses postponed annotations: give the classes real annotation objects)
+        P1 = type("P1", (Schema,), {"__annotations__": {"kind": Literal["p1"], "x": int}, "kind": "p1", "x": 0})
+        P2 = type("P2", (Schema,), {"__annotations__": {"kind": Literal["p2"], "y": int}, "kind": "p2", "y": 0})
+
+        _CACHE["schemas"] = {"Pt": Pt, "P1": P1, "P2": P2}
     return _CACHE["schemas"]
 
 
@@ -171,6 +177,13 @@ def ann(desc, strict=False):
         r = {"int": int, "str": str, "float": float, "bool": bool}[desc]
     elif "c" in desc:
         r = Rule.annotate(ann(desc["c"]), constraints={k: v for k, v in desc.items() if k != "c"})
+    elif cons_of(desc):
+        # a container with validators of its own: Rule.annotate(list, T, constraints={'max_length': 2})
+        kind, elems = top(desc)
+        args = [ann(e, strict) for e in elems if e is not None]
+        if kind == "tuple":
+            args.append(...)
+        r = Rule.annotate(ORIGIN[kind], *args, constraints=cons_of(desc))
     elif "list" in desc:
         r = List[ann(desc["list"], strict)]
     elif "set" in desc:
@@ -186,6 +199,9 @@ def ann(desc, strict=False):
         r = Dict[ann(a[0], strict), ann(a[1], strict)] if len(a) > 1 and a[1] is not None else Rule.annotate(dict, ann(a[0], strict))
     elif "schema" in desc:
         r = _schemas()[desc["schema"]]
+    elif "union" in desc:
+        from typing import Union
+        r = Union[tuple(_schemas()[n] for n in desc["union"])]
     elif "data" in desc:
         # a data class declared by a descriptor {"fields": [...], "opts": {...}}; it is parsed under its OWN options
         r = _schema_class(desc["data"], strict=strict)
@@ -201,6 +217,40 @@ def rule(desc, strict=False):
     if key not in _CACHE:
         _CACHE[key] = Rule.parse_annotation(annotation=ann(desc, strict))
     return _CACHE[key]
+
+
+CONS_KEYS = ("min_length", "max_length", "unique_items")
+
+
+def cons_of(desc):
+    """the validators a container type carries itself"""
+    return {k: desc[k] for k in CONS_KEYS if k in desc} if isinstance(desc, dict) else {}
+
+
+def container_items(enc_value):
+    for k in ("l", "t", "S", "F", "d"):
+        if k in enc_value:
+            return enc_value[k]
+    return []
+
+
+def cons_ok(desc, enc_value):
+    """do the container's own validators accept this (encoded) container"""
+    c = cons_of(desc)
+    items = container_items(enc_value)
+    if not (c.get("min_length", 0) <= len(items) <= c.get("max_length", 10 ** 9)):
+        return False
+    if c.get("unique_items"):
+        seen = []
+        for e in items:
+            try:
+                v = dec(e)
+            except Exception:
+                v = _jkey(e)
+            if any(v == w for w in seen):      # uniqueness in the documented sense: pairwise `==`, no hashing
+                return False
+            seen.append(v)
+    return True
 
 
 def top(desc):
@@ -260,6 +310,29 @@ def conv(desc, x, opts):
         return enc(type_transform(x, rule(desc), options=_options(opts)))
     except Exception:
         return None
+
+
+DISC_MAP = {"p1": "P1", "p2": "P2"}
+
+
+def conv_field(f, x, opts):
+    """the converter of a data-class field seen from outside.  For a field declared with a discriminator it is:
+    the input as a mapping, its discriminator value selects the branch class, conversion to that class - a value that
+    selects no branch is an invalid value of the field."""
+    if not f.get("disc"):
+        return conv(f["type"], x, opts)
+    from utype import type_transform
+    if x is None:
+        return conv(f["type"], x, opts)
+    try:
+        d = x if isinstance(x, dict) else type_transform(x, dict)
+        tag = d.get(f["disc"])
+        branch = DISC_MAP.get(tag) if isinstance(tag, str) else None
+    except Exception:
+        return None
+    if branch is None:
+        return None
+    return conv({"schema": branch}, d, opts)
 
 
 def call(desc, value, opts, via):
@@ -375,6 +448,8 @@ def _schema_class(case, strict=False, drop=(), fresh=False):
             kw["required"] = False
         if f.get("deps"):
             kw["dependencies"] = list(f["deps"])
+        if f.get("disc"):
+            kw["discriminator"] = f["disc"]
         oe = "throw" if strict else f.get("on_error")
         if oe:
             kw["on_error"] = oe
@@ -431,7 +506,7 @@ def impl_schema(case):
         return {"config_error": str(e)[:120]}
     res = {"out": outcome(lambda: S(**data)), "strict": None}
     names = {f["name"]: f for f in case["fields"]}
-    tables = {f["name"]: ([[enc(data[f["name"]]), conv(f["type"], data[f["name"]], opts)]] if f["name"] in data else [])
+    tables = {f["name"]: ([[enc(data[f["name"]]), conv_field(f, data[f["name"]], opts)]] if f["name"] in data else [])
               for f in case["fields"]}
     add = opts.get("addition")
     typed = isinstance(add, (dict, str))
@@ -503,7 +578,7 @@ def clean_data(kdesc, data):
     for k, v in data.items():
         if k in names:
             f = names[k]
-            ok, cv, sv = clean_value(f["type"], v, opts)
+            ok, cv, sv = (conv_field(f, v, opts) is not None, v, True) if f.get("disc") else clean_value(f["type"], v, opts)
             sound = sound and sv
             if ok:
                 out[k] = cv
@@ -545,7 +620,7 @@ def impl_sequence(case):
         ro = st["ropts"]
         shared = outcome(lambda: cls.__from__(data, _options(ro)))
         fresh = outcome(lambda: _schema_class(kcase, fresh=True).__from__(data, _options(ro)))
-        tables = {f["name"]: ([[enc(data[f["name"]]), conv(f["type"], data[f["name"]], ro)]] if f["name"] in data else [])
+        tables = {f["name"]: ([[enc(data[f["name"]]), conv_field(f, data[f["name"]], ro)]] if f["name"] in data else [])
                   for f in case["fields"]}
         steps.append({"out": shared, "fresh": fresh, "strict": None,
                       "probe": {"tables": tables, "add_table": [], "prop_tables": {}}})
@@ -621,11 +696,18 @@ NESTED = {
     "dict_s3_int": ({"dict": [LEAVES["str3"], "int"]}, [{"a": 1}, {"b": "2", "c": 3}, {}], [{"a": "x"}, {"toolong": 1}]),
     "pt": ({"schema": "Pt"}, [{"x": 1}, {"x": "2", "y": 3}], [{"y": 1}, {"x": "bad"}, "junk"]),
 }
+DISC_POOL = ({"union": ["P1", "P2"]},
+             [{"kind": "p1", "x": 1}, {"kind": "p2"}, {"kind": "p2", "y": "3"}, {"kind": "p1"}],
+             [{"kind": "zzz"}, {"kind": "p1", "x": "bad"}, {}, "junk", {"kind": 7}])
 HASHABLE_ELEMS = ["int", "posint", "str3", "float", "tuple_int"]
 ALL_ELEMS = ["int", "int", "posint", "str3", "float", "list_int", "tuple_int", "dict_s3_int", "pt", "data", "data"]
 
 
 def elem_pool(name):
+    if name == "disc":
+        return DISC_POOL
+    if name == "int_u":        # int elements whose offenders include unhashable raw values
+        return "int", GOOD["int"][:6], [{"k": 1}, {"z": [1]}, "x", {"k": 1}]
     if name in NESTED:
         return NESTED[name]
     return LEAVES[name], GOOD[name], BAD[name]
@@ -670,7 +752,7 @@ def rand_opts(rng):
     return {"invalid_items": rng.choice(POLICIES), "invalid_keys": rng.choice(POLICIES), "invalid_values": rng.choice(POLICIES)}
 
 
-def gen_seq(rng, kind=None, pattern=None, opts=None, via=None, ename=None, form=None):
+def gen_seq(rng, kind=None, pattern=None, opts=None, via=None, ename=None, form=None, cons="?"):
     kind = kind or rng.choice(SEQ_KINDS)
     ename = ename or rng.choice(HASHABLE_ELEMS if kind in ("set", "frozenset") else ALL_ELEMS)
     pattern = rand_pattern(rng) if pattern is None else pattern
@@ -680,7 +762,15 @@ def gen_seq(rng, kind=None, pattern=None, opts=None, via=None, ename=None, form=
     if form in ("set", "frozenset") and not hashable:
         form = "list"
     value = {"list": list, "tuple": tuple, "set": set, "frozenset": frozenset}[form](elems)
-    return {"op": "container", "type": {kind: edesc}, "opts": opts or rand_opts(rng),
+    tdesc = {kind: edesc}
+    if cons == "?":
+        cons = None
+        if rng.random() < 0.18:
+            cons = rng.choice([{"min_length": rng.choice([1, 2, 3])}, {"max_length": rng.choice([1, 2, 3, 4])},
+                               {"min_length": 1, "max_length": rng.choice([2, 3])}, {"unique_items": True}])
+    if cons:
+        tdesc.update(cons)
+    return {"op": "container", "type": tdesc, "opts": opts or rand_opts(rng),
             "via": via or rng.choice(["rule", "rule", "rule", "schema", "func"]), "value": enc(value),
             "pattern": pattern}
 
@@ -712,7 +802,10 @@ def gen_map(rng, entries=None, opts=None, via=None, kname=None, vname="?"):
             continue
         seen.add(k)
         pairs.append([enc(k), enc(v)])
-    return {"op": "container", "type": {"dict": [kdesc, vdesc]}, "opts": opts or rand_opts(rng),
+    tdesc = {"dict": [kdesc, vdesc]}
+    if rng.random() < 0.1:
+        tdesc.update(rng.choice([{"min_length": 2}, {"max_length": 2}]))
+    return {"op": "container", "type": tdesc, "opts": opts or rand_opts(rng),
             "via": via or rng.choice(["rule", "rule", "rule", "schema", "func"]), "value": {"d": pairs},
             "pattern": ",".join(entries)}
 
@@ -737,7 +830,7 @@ def gen_tuple_fixed(rng, opts=None):
 
 def gen_field(rng, name, shape=None, on_error="?", tname=None, deps=None, req=None):
     """shape: required | optional | default | modereq (required='w'...) | modereq_default (… with a default)"""
-    tname = tname or rng.choice(["int", "int", "posint", "str3", "list_int"])
+    tname = tname or rng.choice(["int", "int", "posint", "str3", "list_int", "disc"])
     desc = elem_pool(tname)[0]
     shape = shape or rng.choice(["required", "optional", "default", "default", "modereq", "modereq_default"])
     has_default = shape in ("default", "modereq_default")
@@ -745,8 +838,10 @@ def gen_field(rng, name, shape=None, on_error="?", tname=None, deps=None, req=No
         req = True if shape == "required" else (rng.choice(["r", "w", "rw", "a"]) if shape.startswith("modereq") else False)
     f = {"name": name, "type": desc, "tname": tname, "req": req, "has_default": has_default, "default": None,
          "deps": list(deps or [])}
+    if tname == "disc":
+        f["disc"] = "kind"
     if has_default:
-        f["default"] = enc({"int": rng.choice([7, 9]), "posint": rng.choice([7, 9]), "str3": "dd"}.get(tname, [9]))
+        f["default"] = enc({"int": rng.choice([7, 9]), "posint": rng.choice([7, 9]), "str3": "dd", "disc": None}.get(tname, [9]))
     oe = rng.choice([None, None, "throw", "exclude", "preserve"]) if on_error == "?" else on_error
     if oe == "exclude" and req:
         oe = None       # Field() itself refuses a (mode-)required field with on_error='exclude'
@@ -755,6 +850,10 @@ def gen_field(rng, name, shape=None, on_error="?", tname=None, deps=None, req=No
 
 
 FIELD_NAMES = ["a", "b", "c", "d"]
+
+
+class DiscRaw(str):
+    """a literal string VALUE passed where gen_schema expects a presence word"""
 
 
 def gen_kdesc(rng, names=None, inv=None, dfs=None, shapes=None, tnames=None):
@@ -838,9 +937,10 @@ def gen_schema(rng, fields=None, presence=None, extras=None, opts=None, props=No
     data = []
     presence = presence or [rng.choice(["absent", "good", "good", "bad", "bad"]) for _ in fields]
     for f, pr in zip(fields, presence):
-        if pr == "absent":
+        if pr == "absent" and not isinstance(pr, DiscRaw):
             continue
-        data.append([f["name"], enc(pr if isinstance(pr, (dict, list)) else field_value(rng, f, pr == "good"))])
+        lit = isinstance(pr, (dict, list, DiscRaw))
+        data.append([f["name"], enc((str(pr) if isinstance(pr, DiscRaw) else pr) if lit else field_value(rng, f, pr == "good"))])
     if extras is None:
         extras = [rng.choice(["good", "bad"]) for _ in range(rng.choice([0, 0, 1, 2]))]
     add = opts.get("addition")
@@ -863,7 +963,7 @@ def gen_schema(rng, fields=None, presence=None, extras=None, opts=None, props=No
         plist.append({"name": f"p{i}", "type": pool[0] if tn else None,
                       "on_error": rng.choice([None, None, "throw", "exclude", "preserve"]) if prop_oe == "?" else prop_oe,
                       "raw": enc(rng.choice(pool[1] if pr == "good" else pool[2]))})
-    pat = ",".join(p if isinstance(p, str) else "v" for p in presence)
+    pat = ",".join(p if isinstance(p, str) and not isinstance(p, DiscRaw) else "v" for p in presence)
     return {"op": "schema", "fields": fields, "props": plist, "opts": opts, "data": data,
             "pattern": pat + "|" + ",".join(extras) + "|" + ",".join(props)}
 
@@ -961,11 +1061,40 @@ def exhaustive_cases(rng, tier):
                 if tier == "quick":
                     for pol in POLICIES:
                         o = {"invalid_items": pol, "invalid_keys": rng.choice(POLICIES), "invalid_values": rng.choice(POLICIES)}
-                        out.append(gen_seq(rng, kind=kind, pattern=pat, opts=o, via="rule", ename="int", form=kind))
+                        out.append(gen_seq(rng, kind=kind, pattern=pat, opts=o, via="rule", ename="int", form=kind, cons=None))
                 else:
                     for o in all_opts():
                         out.append(gen_seq(rng, kind=kind, pattern=pat, opts=o, via="rule",
-                                           ename=rng.choice(["int", "posint", "str3"]), form=kind))
+                                           ename=rng.choice(["int", "posint", "str3"]), form=kind, cons=None))
+    # containers with validators of their own (min_length / max_length) x placements x the three item policies
+    for kind in ["list", "tuple", "set"]:
+        for cons in [{"min_length": 2}, {"min_length": 3}, {"max_length": 1}, {"max_length": 2}]:
+            for n in range(0, 4):
+                for pat in placements(n, 2):
+                    for pol in POLICIES:
+                        o = {"invalid_items": pol, "invalid_keys": "throw", "invalid_values": "throw"}
+                        out.append(gen_seq(rng, kind=kind, pattern=pat, opts=o, via="rule", ename="int", form=kind, cons=cons))
+    # unique_items (a validator that compares the items) with raw offenders that are unhashable
+    for kind in ["list", "tuple"]:
+        for n in range(1, 4):
+            for pat in placements(n, 2):
+                for pol in POLICIES:
+                    o = {"invalid_items": pol, "invalid_keys": "throw", "invalid_values": "throw"}
+                    out.append(gen_seq(rng, kind=kind, pattern=pat, opts=o, via="rule", ename="int_u", form=kind,
+                                       cons={"unique_items": True}))
+    # a discriminated field x shape x on_error x policy x strategy x value
+    for shape in ["optional", "default", "required"]:
+        for oe in [None, "throw", "exclude", "preserve"]:
+            if shape == "required" and oe == "exclude":
+                continue
+            for inv in POLICIES:
+                for dfs in [True, False]:
+                    for val in DISC_POOL[1][:2] + DISC_POOL[2]:
+                        f = gen_field(rng, "a", shape=shape, on_error=oe, tname="disc")
+                        g = gen_field(rng, "b", shape="default", on_error=None, tname="int")
+                        out.append(gen_schema(rng, fields=[f, g],
+                                              presence=[DiscRaw(val) if isinstance(val, str) else val, "good"],
+                                              extras=[], opts={"invalid_values": inv, "data_first_search": dfs}, props=[]))
     # mappings: every entry shape sequence with <=3 bad entries, all 27 combinations
     maxent = 3 if tier == "quick" else 4
     for n in range(0, maxent + 1):
@@ -1113,9 +1242,11 @@ def model_line(case, io):
     pr, opts = io["probe"], case["opts"]
     if case["op"] == "container":
         kind, elems = top(case["type"])
+        if cons_of(case["type"]) and (kind not in ("list", "tuple") or "unique_items" in cons_of(case["type"])):
+            return {"op": "skip"}      # validators of sets / mappings count after Python's own dedup: not modelled
         if kind in SEQ_KINDS:
-            return {"op": "seq", "kind": kind, "policy": opts.get("invalid_items", "throw"), "items": pr["items"],
-                    "legacy": bool(case.get("legacy"))}
+            return dict({"op": "seq", "kind": kind, "policy": opts.get("invalid_items", "throw"), "items": pr["items"],
+                         "legacy": bool(case.get("legacy"))}, **cons_of(case["type"]))
         if kind == "tuple_fixed":
             add = opts.get("addition")
             extra = "drop" if add is None else ("forbid" if add is False else ("keep" if add is True else "typed"))
@@ -1219,7 +1350,10 @@ class C11(Check):
             "data-class type, List of them, container elements; own options per class; shared field names), recursive "
             "metamorphic oracle, and `sequence` cases: 2-4 parses of ONE class under differing running options "
             "(ignore_required / force_default / mode / policy / strategy), each compared with the same parse on a "
-            "freshly declared class")
+            "freshly declared class.  Review round: containers with validators of their own (min_length / max_length / "
+            "unique_items, incl. unhashable raw offenders; sets and mappings oracle-only), discriminated fields "
+            "(Field(discriminator=...) over Union[P1, P2]) x shape x on_error x policy x strategy; the `preserve` sentence "
+            "is demanded whenever the strict parse of the input without the preserved offenders succeeds")
     assumptions = [
         "element/key/value/field converters are abstract in the theorems; in T2 they are sampled from the real code by parsing each element in isolation under the same options",
         "fail-fast parsing (collect_errors=False), no max_depth, fields without alias/no_input/field-level mode= (mode-dependent required, defaults and dependencies are modelled): outside this fragment the model does not speak",
@@ -1253,11 +1387,15 @@ class C11(Check):
                 if why:
                     return f"step {i} ({st['kind']}): {why}"
             return None
+        if isinstance(mo, dict) and mo.get("skip"):
+            return None
         if not isinstance(mo, dict) or "model" not in mo:
             return f"driver: {mo}"
         if "out" not in io:
             return f"impl: {io}"
         out, m = io["out"], mo["model"]
+        if mo.get("known_defect"):
+            mo = dict(mo, spec=None)     # the theorem's right-hand side is the literal sentence the code is known to miss
         if mo.get("spec") is not None and case["op"] != "func" and mo["spec"] != m and not case.get("legacy"):
             # data-first logs differ in insertion order from the strict run; the dicts they build must agree
             same = case["op"] == "schema" and "ok" in m and "ok" in mo["spec"] and \
@@ -1298,7 +1436,9 @@ class C11(Check):
     # ---- the property, evaluated on what the implementation returned -----------------------------
     def spec(self, case, io, mo):
         if "config_error" in io:
-            return None
+            if "does not support on_error" in io["config_error"]:
+                return None          # Field() itself refuses a required field with on_error='exclude'
+            return f"HARNESS: the declaration of this case was rejected by utype: {io['config_error']}"
         if case["op"] == "sequence":
             for i, (st, sio) in enumerate(zip(case["steps"], io["steps"])):
                 if canon(sio["out"]) != canon(sio["fresh"]):
@@ -1337,18 +1477,28 @@ class C11(Check):
                 return self._expect(out, None, "input is not convertible to the origin type", case=case)
             good = [c for _, c in items if c is not None]
             nbad = len(items) - len(good)
+            tdesc = case["type"]
+            okc = lambda lst: cons_ok(tdesc, wrap_seq(kind, lst))   # the container's own validators
+            back = [c if c is not None else r for r, c in items]
             if pol == "throw":
-                want = wrap_seq(kind, good) if nbad == 0 else None
+                want = wrap_seq(kind, good) if nbad == 0 and okc(good) else None
             elif pol == "exclude":
-                want = wrap_seq(kind, good)
+                want = wrap_seq(kind, good) if okc(good) else None                # strict parse of the filtered input
+            elif okc(good):
+                want = wrap_seq(kind, back)       # literal: the strict result of the filtered input, offenders put back
+            elif not okc(back):
+                want = None
             else:
-                want = wrap_seq(kind, [c if c is not None else r for r, c in items])
+                return None     # the strict parse of the filtered input is rejected by the container's validators:
+                #                 the property's equation for `preserve` has no right-hand side
             why = self._expect(out, want, f"{kind} under invalid_items={pol} with {nbad} offending element(s)", case=case)
             if why or strict is None or pol == "throw":
                 return why
             # metamorphic: strict parse of the input without the offenders, on the real code
             if "ok" not in strict:
-                return f"strict parse of the input without its offending elements failed: {strict}"
+                if pol == "exclude":
+                    return self._expect(out, None, "strict parse of the filtered input raises, exclude does not", case=case)
+                return None
             if pol == "exclude":
                 return self._expect(out, strict["ok"], "exclude != strict parse of the filtered input", case=case)
             back = wrap_seq(kind, put_back(items, seq_items(strict["ok"]))) if kind in ("list", "tuple") else \
@@ -1394,6 +1544,14 @@ class C11(Check):
                 break
             log.append([key, vc if vc is not None else v])
         want = None if fail else wrap_map(log)
+        if want is not None and cons_of(case["type"]):
+            preserved = pk == "preserve" or pv == "preserve"
+            if not cons_ok(case["type"], want):
+                if preserved:
+                    return None     # literal right-hand side undefined / known deviation handled for sequences
+                want = None
+            elif preserved:
+                return None
         why = self._expect(out, want, f"mapping under invalid_keys={pk}, invalid_values={pv}", case=case)
         if why or strict is None:
             return why
@@ -1401,15 +1559,16 @@ class C11(Check):
             return self._expect(out, None, "strict parse of the filtered mapping raises but the policy parse does not", case=case)
         return self._expect(out, strict.get("ok"), "policy parse != strict parse of the mapping without the excluded entries", case=case)
 
-    def spec_schema(self, case, io, out):
-        pr, opts = io["probe"], case["opts"]
+    def _expect_schema(self, case, pr, opts, preserved_removed):
+        """(fail, why, log) of the property's right-hand side.  preserved_removed = True: the literal sentence for
+        `preserve` — strict parse of the data WITHOUT the preserved offenders, then those put back under their names;
+        False: preserved offenders stay in the data as given, accepted values."""
         inv = opts.get("invalid_values", "throw")
         add = opts.get("addition")
-        typed = isinstance(add, (dict, str))
         data = {k: v for k, v in case["data"]}
         names = {f["name"]: f for f in case["fields"]}
         log, fail, why_fail = [], False, ""
-        given, demanded = set(), []
+        given, demanded, putback = set(), [], {}
         for f in case["fields"]:
             nm = f["name"]
             present = nm in data
@@ -1420,10 +1579,14 @@ class C11(Check):
                 if c is None and pol == "exclude" and not req:
                     present = False                        # the offending optional value is removed from the input
                 elif c is None and pol == "preserve":
-                    log.append([nm, raw])
-                    given.add(nm)
-                    demanded += [(nm, d) for d in f.get("deps", [])]
-                    continue
+                    if preserved_removed:
+                        putback[nm] = raw
+                        present = False
+                    else:
+                        log.append([nm, raw])
+                        given.add(nm)
+                        demanded += [(nm, d) for d in f.get("deps", [])]
+                        continue
                 elif c is None:
                     if not fail:
                         fail, why_fail = True, f"offending value for field {nm!r} (policy {pol}, required={req})"
@@ -1444,6 +1607,8 @@ class C11(Check):
         for nm, d in demanded:
             if d not in given and not fail:
                 fail, why_fail = True, f"field {nm!r} given without its dependency {d!r}"
+        if putback and not fail:
+            log = [[k, v] for k, v in log if k not in putback] + [[k, v] for k, v in putback.items()]
         extras = [(k, v) for k, v in case["data"] if k not in names]
         tab = {_jkey(r): c for r, c in pr["add_table"]}
         for k, v in extras:
@@ -1481,8 +1646,24 @@ class C11(Check):
             else:
                 if not fail:
                     fail, why_fail = True, f"offending @property result {q['name']!r}"
-        want = None if fail else wrap_map(log, cls="S")
-        why = self._expect(out, want, f"data class under invalid_values={inv}" + (f" [{why_fail}]" if fail else ""))
+        return fail, why_fail, log
+
+    def spec_schema(self, case, io, out):
+        pr, opts = io["probe"], case["opts"]
+        inv = opts.get("invalid_values", "throw")
+        # the literal right-hand side: offenders of `exclude` AND of `preserve` removed, strict parse, preserved put back
+        lfail, lwhy, llog = self._expect_schema(case, pr, opts, True)
+        # the same with the preserved offenders counted as given values (what differs: requirements on the instance as a
+        # whole - a required field, dependencies - judged with / without them)
+        gfail, gwhy, glog = self._expect_schema(case, pr, opts, False)
+        if not lfail:
+            want, why_fail = wrap_map(llog, cls="S"), ""
+        elif gfail:
+            want, why_fail = None, lwhy
+        else:
+            return None        # the strict parse of the filtered data fails only because a preserved offender was taken
+            #                    out (required field, somebody's dependency): the property's equation has no right-hand side
+        why = self._expect(out, want, f"data class under invalid_values={inv}" + (f" [{why_fail}]" if why_fail else ""))
         strict = io.get("strict")
         if why or strict is None:
             return why
@@ -1556,6 +1737,24 @@ class C11(Check):
                 if t is not None and t[0][1] is None and (q.get("on_error") or inv) != "throw" \
                         and isinstance(q["type"], dict) and "c" in q["type"]:
                     return "output-error-leak"
+        if case["op"] == "container" and cons_of(case["type"]) and case["opts"].get("invalid_items") == "preserve" \
+                and top(case["type"])[0] in SEQ_KINDS:
+            items = io.get("probe", {}).get("items") or []
+            kind = top(case["type"])[0]
+            good = [c for _, c in items if c is not None]
+            back = [c if c is not None else r for r, c in items]
+            rejected = "err" in out or (field_preserves(case) and "ok" in out and canon(out["ok"]) == canon(case["value"]))
+            if len(good) < len(items) and cons_ok(case["type"], wrap_seq(kind, good)) \
+                    and not cons_ok(case["type"], wrap_seq(kind, back)) and rejected:
+                return "preserve-validates-whole-result"
+        if case["op"] == "schema" and out.get("err") == "DependenciesAbsenceError":
+            # a PRESERVED offender that declares dependencies
+            pr, inv = io.get("probe", {}), case["opts"].get("invalid_values", "throw")
+            data = dict(case["data"])
+            for f in case["fields"]:
+                t = pr.get("tables", {}).get(f["name"])
+                if f["name"] in data and t and t[0][1] is None and effective(f, inv) == "preserve" and f.get("deps"):
+                    return "preserve-validates-whole-result"
         if case["op"] == "schema" and any(f.get("deps") for f in case["fields"]):
             # an excluded value with a default, in a declaration with dependencies
             pr, inv = io.get("probe", {}), case["opts"].get("invalid_values", "throw")
@@ -1574,6 +1773,8 @@ class C11(Check):
         return _jkey(c)
 
     def distribution(self, case, io):
+        if isinstance(io, dict) and "config_error" in io:
+            return "declaration-rejected"
         nb = offenders(case, io)
         o = case["opts"]
         if case["op"] == "container":
